@@ -247,9 +247,16 @@ def construct(eng, cls, node, st):
         raise Unsupported("constructor of %s not modelled" % cls)
     args = [eng.eval(a, st) for a in node.args]
     defaults = eng.reg.ctor_defaults.get(cls, {})
+    kwv = {kw.arg: eng.eval(kw.value, st) for kw in node.keywords}      # evaluated left to right after the positional arguments, as in Python
     for fld in init[len(args):]:
-        if fld in defaults:
+        if fld in kwv:
+            args.append(kwv.pop(fld))
+        elif fld in defaults:
             args.append(defaults[fld])
+        else:
+            break
+    if kwv:
+        raise Unsupported("constructor of %s: unknown keyword %s" % (cls, sorted(kwv)))
     if len(args) != len(init):
         raise Unsupported("constructor arity of %s" % cls)
     obj = eng.allocate(st, cls)
@@ -374,6 +381,31 @@ def add_sum_axioms(eng, st):
     st.assume(z3.ForAll([f, a], S(f, a, a) == 0, patterns=[S(f, a, a)]))
     st.assume(z3.ForAll([f, a, b], z3.Implies(b >= a, S(f, a, b + 1) == S(f, a, b) + f[b]), patterns=[S(f, a, b + 1)]))
     st.assume(z3.ForAll([f, a, b], z3.Implies(b > a, S(f, a, b) == S(f, a, b - 1) + f[b - 1]), patterns=[S(f, a, b)]))
+    if eng.contract is not None and eng.contract.extra.get("sum_lemmas"):
+        # opt-in theorem about finite sums (by induction on the upper bound; base and step are discharged as lemma obligations by the contract module that
+        # asks for it, see sum_domination_lemma): a sum of non-negative terms is non-negative and at least each of its terms
+        st.assume(sum_domination(S, f, a, b, patterns=True))
+        eng.assumptions.add("finite sums: 'a sum of non-negative terms dominates each term' used as a lemma (induction step discharged separately)")
+
+
+def sum_domination(S, f, a, b, patterns=False):
+    i, j = z3.Ints("sum_i sum_j")
+    nonneg = z3.ForAll([i], z3.Implies(z3.And(a <= i, i < b), f[i] >= 0))
+    concl = z3.And(S(f, a, b) >= 0, z3.ForAll([j], z3.Implies(z3.And(a <= j, j < b), S(f, a, b) >= f[j])))
+    body = z3.Implies(z3.And(b >= a, nonneg), concl)
+    return z3.ForAll([f, a, b], body, patterns=[S(f, a, b)]) if patterns else body
+
+
+def sum_domination_lemma():
+    """-> (hyp, goals) for a Registry.lemmas entry: base and step of the induction on the upper bound"""
+    S = sum_fn(None)
+    f = z3.Array("sum_f", z3.IntSort(), z3.IntSort())
+    a, b = z3.Ints("sum_a sum_b")
+    g = z3.Array("lem_sum_f", z3.IntSort(), z3.IntSort())
+    lo, hi = z3.Ints("lem_sum_lo lem_sum_hi")
+    hyp = [z3.ForAll([f, a], S(f, a, a) == 0, patterns=[S(f, a, a)]),
+           z3.ForAll([f, a, b], z3.Implies(b >= a, S(f, a, b + 1) == S(f, a, b) + f[b]), patterns=[S(f, a, b + 1)])]
+    return hyp, {"base": sum_domination(S, g, lo, lo), "step": z3.Implies(z3.And(hi >= lo, sum_domination(S, g, lo, hi)), sum_domination(S, g, lo, hi + 1))}
 
 
 def SUM(eng, st, arr, lo, hi):
@@ -519,6 +551,21 @@ def b_list(eng, node, st):
         n, g = eng.iter_protocol(v, st)
         i = z3.Int(fresh_name("i"))
         return VList(INT, z3.Lambda([i], g(i)), n)
+    if isinstance(v, (VDictItems, VSet)):
+        # list(d.items()) / list(a_set): the elements in the (unspecified) iteration order, once each
+        n, g = eng.iter_protocol(v, st)
+        if getattr(eng, "concrete", False):
+            items = [g(z3.IntVal(k)) for k in range(z3.simplify(n).as_long())]
+            return eng.const_list(items) if items else ("emptylist",)
+        i = z3.Int(fresh_name("i"))
+        sample = g(i)
+        es = sort_of(sample)
+        arr = z3.Array(fresh_name("items.arr"), z3.IntSort(), es.z3sort())
+        pats = [arr[i]]
+        if eng.last_set_iter is not None:
+            pats.append(eng.last_set_iter[0][i])        # the enumeration's own element term: an element of the set is located in the list
+        st.assume(forall_pat([i], z3.Implies(z3.And(0 <= i, i < n), arr[i] == to_z3(sample, es)), pats))
+        return VList(es, arr, n)
     raise Unsupported("list() of %r" % (v,))
 
 
@@ -632,6 +679,49 @@ def sorted_list(eng, st, v):
     return r
 
 
+def sort_by_key(eng, st, v, key, reverse):
+    """list.sort(key=lambda, reverse=const): the result is a STABLE ordered permutation of the list -- keys non-decreasing (non-increasing with reverse),
+    elements with equal keys in their original order, related to the input by a bijection on indices.  Keys must be numbers."""
+    rev = z3.simplify(as_bool(reverse)) if not isinstance(reverse, bool) else z3.BoolVal(reverse)
+    if not (z3.is_true(rev) or z3.is_false(rev)):
+        raise Unsupported("sort(reverse=<not a constant>)")
+    rev = z3.is_true(rev)
+    if key is not None and not isinstance(key, VLambda):
+        raise Unsupported("sort(key=<not a lambda>)")
+
+    def keyof(e):
+        val = from_z3(e, v.elem)
+        k = eng.apply_lambda(key, [val], st) if key is not None else val
+        if not is_numlike(k):
+            raise Unsupported("sort key is not a number")
+        return to_z3(k)
+    if getattr(eng, "concrete", False):
+        n = z3.simplify(v.len).as_long()
+        elems = [z3.simplify(v.arr[i]) for i in range(n)]
+        ks = []
+        for e in elems:
+            kz = z3.simplify(keyof(e))
+            ks.append(kz.as_fraction() if z3.is_rational_value(kz) else kz.as_long())
+        order = sorted(range(n), key=lambda i: ks[i], reverse=rev)
+        arr = z3.K(z3.IntSort(), elems[0]) if elems else v.arr
+        for pos, i in enumerate(order):
+            arr = z3.Store(arr, pos, elems[i])
+        return VList(v.elem, arr, v.len, v.is_str)
+    i, j = z3.Ints(fresh_name("i") + " " + fresh_name("j"))
+    r = VList(v.elem, z3.Array(fresh_name("sorted.arr"), z3.IntSort(), v.elem.z3sort()), v.len, v.is_str)
+    p = z3.Function(fresh_name("perm"), z3.IntSort(), z3.IntSort())
+    q = z3.Function(fresh_name("iperm"), z3.IntSort(), z3.IntSort())
+    ki, kj = keyof(r.arr[i]), keyof(r.arr[j])
+    inr = z3.And(0 <= i, i < j, j < r.len)
+    # triggers: an element of the input (v[i]) is located in the result through q, an element of the result (r[i]) in the input through p
+    both = [z3.MultiPattern(r.arr[i], r.arr[j])]
+    st.assume(forall_pat([i, j], z3.Implies(inr, (ki >= kj) if rev else (ki <= kj)), both))
+    st.assume(forall_pat([i, j], z3.Implies(z3.And(inr, ki == kj), p(i) < p(j)), both))
+    st.assume(forall_pat([i], z3.Implies(z3.And(0 <= i, i < r.len), z3.And(0 <= p(i), p(i) < r.len, q(p(i)) == i, r.arr[i] == v.arr[p(i)])), [p(i), r.arr[i]]))
+    st.assume(forall_pat([i], z3.Implies(z3.And(0 <= i, i < r.len), z3.And(0 <= q(i), q(i) < r.len, p(q(i)) == i)), [q(i), v.arr[i]]))
+    return r
+
+
 def b_print(eng, node, st):
     fileobj = None
     for kw in node.keywords:
@@ -661,8 +751,14 @@ def b_isinstance(eng, node, st):
     raise Unsupported("isinstance(%r, %s)" % (v, ast.unparse(cls)))
 
 
+def b_dict(eng, node, st):
+    if node.args or node.keywords:
+        raise Unsupported("dict(...) with arguments")
+    return VConstDict([])
+
+
 BUILTINS = {
-    "len": b_len, "range": b_range, "zip": b_zip, "enumerate": b_enumerate, "sum": b_sum, "all": b_all, "any": b_any,
+    "dict": b_dict, "len": b_len, "range": b_range, "zip": b_zip, "enumerate": b_enumerate, "sum": b_sum, "all": b_all, "any": b_any,
     "max": b_max, "min": b_min, "abs": b_abs, "int": b_int, "bool": b_bool, "list": b_list, "tuple": b_tuple,
     "set": b_set, "frozenset": b_frozenset, "sorted": b_sorted, "print": b_print, "isinstance": b_isinstance,
 }
@@ -692,9 +788,16 @@ def method_call(eng, recv, recv_node, name, node, st):
         if r is not NotImplemented:
             return r
     if isinstance(recv, VList):
+        if name == "sort" and not args:
+            _check_alias(eng, recv_node, st)
+            eng.assign(recv_node, sort_by_key(eng, st, recv, kwargs.get("key"), kwargs.get("reverse", False)), st, True)
+            return NONE
         if name == "append":
             _check_alias(eng, recv_node, st)
-            eng.assign(recv_node, eng.list_append(recv, args[0]), st, True)
+            item = args[0]
+            if isinstance(item, VOpt) and not isinstance(recv.elem, OPT):
+                item = eng.coerce(item, recv.elem, st)       # an Optional value known not to be None here (obligation) stored into a list of plain values
+            eng.assign(recv_node, eng.list_append(recv, item), st, True)
             return NONE
         if name == "extend" and len(args) == 1:
             other = args[0]
